@@ -244,6 +244,15 @@ def lookupLocalName (n : NameSec) (f i : Nat) : Option Bytes :=
   | some m => m.lookup i
   | none => none
 
+/-! ## block type index: a SIGNED 33-bit LEB128 (`s33`), not a u32 -/
+
+def encBlockTypeIdx (i : Nat) : Bytes := encS (i : Int)
+
+def decBlockTypeIdx (bs : Bytes) : Option (Nat × Bytes) :=
+  match decodeS33 bs with
+  | .ok (v, n) => if 0 ≤ v then some (v.toNat, bs.drop n) else none
+  | .error _ => none
+
 /-! ## label resolution (`br $l`): the nearest enclosing block with that label -/
 
 /-- `stk`: labels of the enclosing blocks, innermost first (`none` = unlabelled) -/
